@@ -8,7 +8,8 @@ enum { OP_CREATE = 1, OP_THREADS_CREATE, OP_ATTACH_FIRST, OP_SENDERS_START, OP_S
        OP_SLEEP_US, OP_GO /* release the concurrent shutdown callers */, OP_JOIN_HELPERS, OP_THREADS_CREATE_AGAIN,
        OP_GATE /* park worker arg inside a callback */, OP_FLOOD /* fill worker arg's queue until EAGAIN */, OP_UNGATE, OP_WAIT_T0 /* wait until thread 0 ran its start hook */,
        OP_CLOSE_STDIN /* only as the first op: descriptor 0 is free when the pool is created */,
-       OP_DETTACH /* tp_thread_dettach() on slot arg, which has no thread in its event loop */ };
+       OP_DETTACH /* tp_thread_dettach() on slot arg, which has no thread in its event loop */,
+       OP_FORCE_SEND /* tpt_msg_send(thread arg, TP_MSG_F_FORCE): runs in place if that thread does not run (yet) */ };
 enum { FK_NONE = 0, FK_CALLOC, FK_EPOLL_CREATE, FK_PIPE2, FK_EPOLL_CTL, FK_PTHREAD_CREATE, FK__N };
 
 static tp_p g_tp;
@@ -238,6 +239,11 @@ int main(void) {
 			break;
 		case OP_UNGATE:
 			while (gates) { sem_post(&g_gate_sem); gates--; }
+			break;
+		case OP_FORCE_SEND:
+			if (!created) break;
+			rc = tpt_msg_send(tp_thread_get(g_tp, arg % g_pool), NULL, TP_MSG_F_FORCE, msg_cb, NULL);
+			TM_LOG(EV_NOTE, 4, arg % g_pool, 0, rc);
 			break;
 		case OP_DETTACH:
 			if (!created) break;
